@@ -1206,7 +1206,8 @@ fn run(st: &mut State, line: &str) -> String {
 
     // the log file against the log of the same command on fresh paths
     let mut logref = "-".to_string();
-    if (log_cls.starts_with('x') || log_cls.starts_with('q')) && log_cls != "xL" && !died {
+    // (not with a FIFO as the output file: the reference run would have no reader and block in File::create)
+    if (log_cls.starts_with('x') || log_cls.starts_with('q')) && log_cls != "xL" && !died && fifo.is_none() {
         let fresh = |cls: &str, p: &PathBuf, name: &str| -> PathBuf {
             if cls == "g" || cls.starts_with('x') || cls.starts_with('q') { casedir.join(name) } else { p.clone() }
         };
